@@ -259,7 +259,7 @@ def instantiate(toks, P, seed, template, effects=False):
         if t in ("if", "ife", "wh"):
             counter = None
             if chain_mode:
-                # SemChains.tla: conditions do not read the accumulator; loops run on a counter of their own (two iterations)
+                # SemChains.tla: conditions do not read the accumulator; loops run on a counter of their own (one or two iterations)
                 if t == "wh":
                     pg.ncounter = getattr(pg, "ncounter", 0) + 1
                     counter = "i%d" % pg.ncounter
@@ -267,9 +267,10 @@ def instantiate(toks, P, seed, template, effects=False):
                     di = pg.stmt({"k": "set", "x": counter, "e": zi})
                     lines.append((ind, "var %s = 0;" % counter, [(zi, 0, 1)], di, len("var %s = " % counter)))
                     pre_stmts.append(di)
-                    ci, li = pg.node({"k": "var", "x": counter}), pg.node({"k": "num", "v": 2})
+                    bound = min(2, (P - 1) // 2)        # comparisons are on signed representatives: 2 is negative in F_3
+                    ci, li = pg.node({"k": "var", "x": counter}), pg.node({"k": "num", "v": bound})
                     ei = pg.node({"k": "bin", "op": "lesser", "l": ci, "r": li})
-                    et = "%s < 2" % counter
+                    et = "%s < %d" % (counter, bound)
                     rg = [(ci, 0, len(counter)), (li, len(counter) + 3, len(counter) + 4), (ei, 0, len(et))]
                 else:
                     pn = rnd.choice(["n", "m"])
